@@ -1,9 +1,20 @@
-(** C16 - Curve points, lengths and closest-parameter queries are mutually consistent. *)
-From Coq Require Import Reals List Arith.
-From CB Require Import Base.Vec3 Model.C16_Curves Proofs.C16_Curves.
+(** C16 - Curve points, lengths and closest-parameter queries are mutually consistent.
+
+    Statements about the model Model/C16_Curves.v (transcribed from construct/curves/*.py, items/edges/curve.py,
+    construct/edges.py; tied to the code by the correspondence of harness/props/C16.py on every run).
+    [lin_point ts ps] is the linear-interpolated curve through the points [ps] at the knots [ts] (the
+    interpolator's own parameters), [il_length] the repaired InterpolatedCurveBase.get_length, [il_length_old]
+    the formula of the snapshot, [dc_*] the discrete curve, [fc_*] any curve given by a function. *)
+From Coq Require Import Reals List Arith Lia Lra.
+From CB Require Import Base.Vec3 Model.C16_Curves Proofs.C16_Curves Proofs.C16_Length Proofs.C16_Edge.
 Import ListNotations.
 Open Scope R_scope.
 
+(** the hypotheses on an interpolated curve: strictly increasing knots, one point per knot, at least one segment *)
+Definition knots_ok (ts : list R) (ps : list vec) : Prop :=
+  incr ts /\ length ps = length ts /\ (2 <= length ts)%nat.
+
+(** ** discretising between two parameters starts and ends at the curve's points for those parameters *)
 Definition C16_discretize_ends_stmt : Prop :=
   (forall (f : R -> vec) a b n d, (2 <= n)%nat ->
      hd d (fc_discretize f a b n) = f a /\ last (fc_discretize f a b n) d = f b)
@@ -12,4 +23,126 @@ Definition C16_discretize_ends_stmt : Prop :=
 Theorem C16_discretize_ends : C16_discretize_ends_stmt.
 Proof. split; [exact fc_discretize_ends | exact dc_discretize_ends]. Qed.
 
+(** ** an interpolated curve passes through its defining points (linear interpolation; for the spline this is
+    the assumption on scipy's make_interp_spline, monitored by the correspondence) *)
+Definition C16_interpolates_stmt : Prop :=
+  forall ts ps i, knots_ok ts ps -> (i < length ts)%nat -> lin_point ts ps (nth i ts 0) = nth i ps vzero.
+Theorem C16_interpolates : C16_interpolates_stmt.
+Proof. intros ts ps i (H1 & H2 & H3) Hi. exact (lin_point_knot ts ps i H1 H2 H3 Hi). Qed.
+
+(** ** the length between two parameters is additive over a split and does not depend on their order *)
+Definition C16_length_additive_stmt : Prop :=
+  (* linear-interpolated curve, parameters in either order, any split between them *)
+  (forall ts ps a m b, knots_ok ts ps -> in_range ts a -> in_range ts b -> Rmin a b <= m <= Rmax a b ->
+     il_length (lin_point ts ps) ts a b = il_length (lin_point ts ps) ts a m + il_length (lin_point ts ps) ts m b)
+  (* any interpolated curve (spline included): split at a knot *)
+  /\ (forall (f : R -> vec) ts a m b, incr ts -> In m ts -> Rmin a b < m < Rmax a b ->
+     il_length f ts a b = il_length f ts a m + il_length f ts m b)
+  /\ (forall (f : R -> vec) ts a b, il_length f ts a b = il_length f ts b a)
+  (* discrete curve *)
+  /\ (forall pts a b c, (a <= b)%nat -> (b <= c)%nat -> (c < length pts)%nat ->
+     dc_length pts a c = dc_length pts a b + dc_length pts b c)
+  /\ (forall pts a b, dc_length pts a b = dc_length pts b a).
+Theorem C16_length_additive : C16_length_additive_stmt.
+Proof.
+  split; [|split; [|split; [|split]]].
+  - intros ts ps a m b (H1 & H2 & H3). exact (il_length_additive ts ps a m b H1 H2 H3).
+  - exact il_length_additive_knot.
+  - exact il_length_sym.
+  - exact dc_length_additive.
+  - exact dc_length_sym.
+Qed.
+
+(** ** for a piecewise-linear curve the length equals the polyline length: it is the difference of the arc-length
+    function of the polyline, which at the k-th knot is the length of the polyline through the first k+1
+    points; over the whole curve it is the length of the polyline through all defining points *)
+Definition C16_length_polyline_stmt : Prop :=
+  (forall ts ps a b, knots_ok ts ps -> in_range ts a -> in_range ts b ->
+     il_length (lin_point ts ps) ts a b = Rabs (arclen ts ps b - arclen ts ps a))
+  /\ (forall ts ps k, knots_ok ts ps -> (k < length ts)%nat -> arclen ts ps (nth k ts 0) = polylen (firstn (S k) ps))
+  /\ (forall ts ps, knots_ok ts ps -> il_length (lin_point ts ps) ts (hd 0 ts) (last ts 0) = polylen ps)
+  /\ (forall pts, (1 <= length pts)%nat -> dc_length pts 0 (length pts - 1) = polylen pts)
+  /\ (forall pts a b, (a <= b)%nat -> (b < length pts)%nat ->
+        dc_length pts a b = polylen (firstn (S b) pts) - polylen (firstn (S a) pts)).
+Theorem C16_length_polyline : C16_length_polyline_stmt.
+Proof.
+  split; [|split; [|split; [|split]]].
+  - intros ts ps a b (H1 & H2 & H3). exact (il_length_arclen ts ps a b H1 H2 H3).
+  - intros ts ps k (H1 & H2 & H3). exact (arclen_knot ts ps k H1 H2).
+  - intros ts ps (H1 & H2 & H3). exact (il_length_full ts ps H1 H2 H3).
+  - exact dc_length_full.
+  - exact dc_length_cum.
+Qed.
+
+(** ** the formula of the snapshot (break points i/segments) is not the polyline length when the knots are uneven:
+    the full statement for [il_length_old] is refuted by a three-point curve *)
+Definition C16_length_old_stmt : Prop :=
+  forall ts ps seg kf kt a b,
+    incr ts -> length ps = length ts -> S seg = length ts ->
+    is_floor (a * INR seg) kf -> is_floor (b * INR seg) kt -> in_range ts a -> in_range ts b -> a <= b ->
+    il_length_old (lin_point ts ps) seg kf kt a b = arclen ts ps b - arclen ts ps a.
+Theorem C16_length_old_refuted : ~ C16_length_old_stmt.
+Proof. exact il_length_old_refuted. Qed.
+
+(** ** closest parameter: exact argmin for the discrete curve; for a function curve the result is at least as close
+    as every coarse sample, given that the minimiser does not return a point farther than its start point *)
+Definition C16_closest_discrete_stmt : Prop :=
+  forall pts q, pts <> [] ->
+    (dc_closest pts q < length pts)%nat /\
+    forall j, (j < length pts)%nat -> dist (dc_point pts (dc_closest pts q)) q <= dist (dc_point pts j) q.
+Theorem C16_closest_discrete : C16_closest_discrete_stmt.
+Proof. exact dc_closest_spec. Qed.
+
+(** full statement: as close as every point of the curve between the bounds *)
+Definition C16_closest_dense_stmt : Prop :=
+  forall (minimise : R -> R) (f : R -> vec) lo hi cnt q, (1 <= cnt)%nat ->
+    (forall t0, dist (f (minimise t0)) q <= dist (f t0) q) ->
+    forall t, lo <= t <= hi -> dist (f (fc_closest minimise f lo hi cnt q)) q <= dist (f t) q.
+(** proved part: as close as every coarse sample *)
+Definition C16_closest_dense_partial_stmt : Prop :=
+  forall (minimise : R -> R) (f : R -> vec) lo hi cnt q, (1 <= cnt)%nat ->
+    (forall t0, dist (f (minimise t0)) q <= dist (f t0) q) ->
+    forall j, (j < cnt)%nat -> dist (f (fc_closest minimise f lo hi cnt q)) q <= dist (f (lin_at lo hi cnt j)) q.
+Theorem C16_closest_dense_partial : C16_closest_dense_partial_stmt.
+Proof. exact fc_closest_coarse. Qed.
+
+(** ** an edge snapped to a curve: n points, the k-th is the curve point at a parameter between those of the two
+    vertices, running from the first vertex to the second; on a discrete curve the points strictly between the
+    two indices in that order.  (The edge's length is [get_length] between the two parameters by definition.) *)
+Definition C16_edge_on_curve_stmt : Prop :=
+  (forall (f : R -> vec) ps pe n,
+     length (edge_points f ps pe n) = n /\
+     forall k d, (k < n)%nat ->
+       nth k (edge_points f ps pe n) d = f (lin_at ps pe (n + 2) (S k))
+       /\ Rmin ps pe <= lin_at ps pe (n + 2) (S k) <= Rmax ps pe
+       /\ (ps <= pe -> lin_at ps pe (n + 2) k <= lin_at ps pe (n + 2) (S k))
+       /\ (pe <= ps -> lin_at ps pe (n + 2) (S k) <= lin_at ps pe (n + 2) k))
+  /\ (forall pts a b, (a < length pts)%nat -> (b < length pts)%nat ->
+     length (dc_edge_points pts a b) = (Nat.max a b - Nat.min a b - 1)%nat /\
+     forall k, (S k < Nat.max a b - Nat.min a b)%nat ->
+       nth k (dc_edge_points pts a b) vzero = dc_point pts (if (a <=? b)%nat then a + S k else a - S k)).
+Theorem C16_edge_on_curve : C16_edge_on_curve_stmt.
+Proof.
+  split.
+  - intros f ps pe n. split; [exact (edge_points_length f ps pe n)|].
+    intros k d Hk. split; [exact (edge_points_nth f ps pe n k d Hk)|].
+    split; [apply lin_at_between; lia|]. apply lin_at_mono. lia.
+  - intros pts a b Ha Hb. split; [exact (dc_edge_points_length pts a b Ha Hb)|].
+    intros k Hk. exact (dc_edge_points_nth pts a b k Ha Hb Hk).
+Qed.
+
+(** the hypotheses are satisfiable *)
+Example C16_knots_ok_example : knots_ok old_ts old_ps /\ in_range old_ts 0 /\ in_range old_ts (1 / 2) /\ in_range old_ts 1.
+Proof.
+  unfold knots_ok, in_range, old_ts, old_ps. simpl.
+  repeat split; try lia; try lra.
+Qed.
+
 Print Assumptions C16_discretize_ends.
+Print Assumptions C16_interpolates.
+Print Assumptions C16_length_additive.
+Print Assumptions C16_length_polyline.
+Print Assumptions C16_length_old_refuted.
+Print Assumptions C16_closest_discrete.
+Print Assumptions C16_closest_dense_partial.
+Print Assumptions C16_edge_on_curve.
